@@ -3,6 +3,7 @@ package env
 import (
 	"errors"
 	"fmt"
+	"strings"
 
 	"github.com/256dpi/gomqtt/broker"
 	"github.com/256dpi/gomqtt/packet"
@@ -43,6 +44,7 @@ type Recorder struct {
 	Held      []*HeldAck
 	FailHook  string // hook to fail
 	FailAt    int    // fail the n-th call from now of FailHook (1 = next)
+	FailConn  string // if set, only calls made on behalf of connections whose name starts with this prefix fail
 	Accepted  map[string]int
 	LogEvents []string // broker log events (LogEvent + conn), if KeepLog
 	KeepLog   bool
@@ -70,6 +72,9 @@ func (r *Recorder) enter(hook string, c *broker.Client) *Ev {
 }
 
 func (r *Recorder) fail(hook string) bool {
+	if r.FailConn != "" && (len(r.Evs) == 0 || !strings.HasPrefix(r.Evs[len(r.Evs)-1].Conn, r.FailConn)) {
+		return false
+	}
 	if r.FailHook == hook && r.FailAt > 0 {
 		r.FailAt--
 		if r.FailAt == 0 {
